@@ -17,6 +17,7 @@ CONSTANTS Depth,        \* 1 or 2
           ChainLen      \* assign family: longest statement chain
 HID == <<"h1", "h2", "h3", "h4", "h5", "h6", "h7", "h8", "h9", "h10", "h11", "h12", "h13", "h14", "h15", "h16">>
 NAME == <<"n1", "n2", "n3", "n4", "n5", "n6", "n7", "n8", "n9", "n10", "n11", "n12">>
+LeafIdx(h) == CHOOSE i \in 1..16 : HID[i] = h
 \* abstract shapes
 C == <<"c">>
 Kids1 == {C}
@@ -103,10 +104,28 @@ AssignEnv(fault) == [handlers |-> [h \in {HID[i] : i \in 1..16} |-> [ret |-> IF 
 AssignInit == \E len \in 0..ChainLen, c \in 1..Len(AssignCtxs), fault \in {NoFault, <<1, "err">>, <<2, "panic">>} :
                 \E idxs \in [1..len -> 1..NS] :
                    Start(AssignEnv(fault), IF len = 1 THEN Stmts[idxs[1]] ELSE <<"stmt", [k \in 1..len |-> Stmts[idxs[k]]]>>, AssignCtxs[c])
+\* ---- C08: which handler a call reaches ------------------------------------------------------------------
+\* name bound as: context function / global function / built-in / context variable / nothing, in every combination that matters
+DispatchCases == <<
+  [prog |-> <<"call", "d1", <<>>>>, ctx |-> ("d1" :> <<"fn", "h1">>), gfun |-> <<>>],                                    \* context function only
+  [prog |-> <<"call", "d2", <<>>>>, ctx |-> <<>>, gfun |-> ("d2" :> "h2")],                                                \* global only
+  [prog |-> <<"call", "d3", <<>>>>, ctx |-> ("d3" :> <<"fn", "h3">>), gfun |-> ("d3" :> "h4")],                           \* both: the context wins
+  [prog |-> <<"call", "d4", <<>>>>, ctx |-> ("d4" :> <<"var", VInt(9)>>), gfun |-> ("d4" :> "h5")],                       \* a context *variable* does not shadow a call
+  [prog |-> <<"call", "d5", <<>>>>, ctx |-> ("d5" :> <<"var", VInt(9)>>), gfun |-> <<>>],                                  \* variable only: no such function
+  [prog |-> <<"call", "d6", <<>>>>, ctx |-> <<>>, gfun |-> <<>>],                                                           \* nothing: error
+  [prog |-> <<"call", "min", <<<<"lit", VInt(4)>>, <<"lit", VInt(2)>>>>>>, ctx |-> <<>>, gfun |-> <<>>],                  \* built-in
+  [prog |-> <<"call", "max", <<<<"lit", VInt(4)>>>>>>, ctx |-> ("max" :> <<"fn", "h6">>), gfun |-> <<>>],                 \* built-in shadowed by the context
+  [prog |-> <<"call", "sum", <<<<"lit", VInt(4)>>>>>>, ctx |-> <<>>, gfun |-> ("sum" :> "h7")],                            \* built-in replaced globally
+  [prog |-> <<"stmt", <<<<"call", "d7", <<>>>>, <<"ref", "d7">>, <<"call", "d8", <<<<"call", "d7", <<>>>>>>>>>>>>, ctx |-> ("d7" :> <<"fn", "h8">>), gfun |-> ("d8" :> "h9") @@ ("d7" :> "h10")],
+  [prog |-> <<"bin", "=", <<"ref", "d9">>, <<"call", "d9", <<>>>>>>, ctx |-> ("d9" :> <<"fn", "h11">>), gfun |-> ("d9" :> "h12")],  \* after x = x(): x is a variable, the global is called
+  [prog |-> <<"stmt", <<<<"bin", "=", <<"ref", "d10">>, <<"lit", VInt(1)>>>>, <<"call", "d10", <<>>>>>>>>, ctx |-> ("d10" :> <<"fn", "h13">>), gfun |-> ("d10" :> "h14")] >>
+DispatchEnv(c, fault) == [handlers |-> [h \in {HID[i] : i \in 1..16} |-> [ret |-> VStr(<<104, LeafIdx(h) + 64>>), act |-> "lockctx"]],
+                          gfun |-> c.gfun, gprefix |-> <<>>, gpostfix |-> <<>>, ginfix |-> <<>>, fault |-> fault]
+DispatchInit == \E k \in 1..Len(DispatchCases), fault \in {NoFault, <<1, "err">>} : Start(DispatchEnv(DispatchCases[k], fault), DispatchCases[k].prog, DispatchCases[k].ctx)
 ShapeInit == \E s \in Shapes, mode \in LeafModes :
           LET L == Size(s) IN
           \E script \in Scripts(L), fault \in Faults(L) : Start(EnvOf(L, script, fault), Build(s, 0, mode), CtxOf(L))
-Init == IF Family = "assign" THEN AssignInit ELSE ShapeInit
+Init == IF Family = "assign" THEN AssignInit ELSE IF Family = "dispatch" THEN DispatchInit ELSE ShapeInit
 VALToJson(st, v) == IF st = "ok" THEN v ELSE <<"none">>
 CtxToJson(c) == LET names == {nm \in DOMAIN c : TRUE} IN [nm \in names |-> c[nm]]
 Record == [prog |-> prog, ctx0 |-> CtxToJson(ctx0), handlers |-> [h \in DOMAIN env.handlers |-> env.handlers[h].ret],
@@ -117,7 +136,6 @@ Next == \/ MStep
 Spec == Init /\ [][Next]_mvars
 EmitOnce == (Emit /\ status # "run") => PrintT(ToJson(Record))
 \* source order: leaf handlers are invoked in increasing order, each at most once
-LeafIdx(h) == CHOOSE i \in 1..16 : HID[i] = h
 LeftToRight == \A i \in 1..Len(log) - 1 : (LeafIdx(log[i][1]) <= 9 /\ LeafIdx(log[i + 1][1]) <= 9) => LeafIdx(log[i][1]) < LeafIdx(log[i + 1][1])
 AtMostOnce == \A i, j \in 1..Len(log) : (i # j /\ LeafIdx(log[i][1]) <= 9) => log[i][1] # log[j][1]
 ====
